@@ -368,6 +368,31 @@ pub fn run(ctx: &mut Ctx) {
                 let msgs = gen::msg_list(&mut rng, gen::TINY, 0x16);
                 run_case(ctx, t, 0x0303, &refenc::msgs_payload(&msgs), &[], 0, "unknown-content-type", Tail::None);
                 ctx.count("unknown-types");
+                // the stateful record parser: fresh, after an empty handshake / heartbeat record (a defragmentation
+                // with an empty buffer is in progress), after a partial handshake message: an unknown content type
+                // carrying a complete valid message of a known type never yields a value
+                let hs_msg = [0x0eu8, 0, 0, 0];
+                let hb_msg = [1u8, 0, 1, 0x41, 1, 2, 3, 4, 5, 6, 7, 8, 9, 10, 11, 12, 13, 14, 15, 16];
+                let histories: [&[(u8, &[u8])]; 4] = [&[], &[(0x16, &[])], &[(0x18, &[])], &[(0x16, &[0x0e, 0])]];
+                for h in histories.iter() {
+                    for payload in [&hs_msg[..], &hb_msg[..]] {
+                        let mut p = TlsRecordsParser::default();
+                        for (ty, d) in h.iter() {
+                            let _ = p.parse_record(TlsRawRecord { hdr: TlsRecordHeader { record_type: TlsRecordType(*ty), version: TlsVersion(0x0303), len: d.len() as u16 }, data: d });
+                        }
+                        let res = p.parse_record(TlsRawRecord { hdr: TlsRecordHeader { record_type: TlsRecordType(t), version: TlsVersion(0x0303), len: payload.len() as u16 }, data: payload });
+                        let n = res.as_ref().ok().map(|(_, m)| m.len());
+                        drop(res);
+                        ctx.eval();
+                        ctx.count("unknown-types.via-defragmenter");
+                        if let Some(n) = n {
+                            ctx.violation(
+                                "c03:unknown-content-type-yields-messages-through-TlsRecordsParser".into(),
+                                json!({"content_type": t, "history": format!("{:?}", h), "messages_returned": n, "payload_hex": hex_short(payload)}),
+                            );
+                        }
+                    }
+                }
             }
         }
     });
